@@ -10,12 +10,15 @@
    - decoder: every symbol the streaming decoder holds equals the codeword's; what it makes available
      is exactly the peeling closure of the received set (any order, duplicates); any single loss is
      recovered, whatever the order of arrival.
-   Not theorems yet: of_finish_decoding (ML) on this matrix recovers exactly the uniquely determined
-   patterns, and release without leak: decided on the compiled C (every received subset of every
-   accepted shape with n <= 9, sampled subsets otherwise, both APIs, GF(2) oracle, allocation count);
-   the matrix model is compared with the C for every (k, n-k) of the property's domain. *)
+   - of_finish_decoding (the ML model of C03 on this matrix): the session always returns, never holds
+     a wrong symbol, reports OK iff all sources are available, and that happens iff the checks determine
+     the sources uniquely given the received set (every GF(2) kernel vector of the matrix vanishing on
+     the received set vanishes on the sources).
+   Not a theorem: release without leak (run-time allocation accounting on the compiled C).
+   The matrix model is compared with the C for every (k, n-k) of the property's domain, and every
+   session is replayed on the extracted decoder models. *)
 From Coq Require Import Arith List Bool.
-From OFV Require Import ListAux Sparse Pchk XorGroup LdpcEnc ITModel ITProofs Pchk2D P2DProofs.
+From OFV Require Import ListAux Sparse Pchk XorGroup LdpcEnc ITModel ITProofs MLModel Pchk2D P2DProofs.
 Import ListNotations.
 
 Theorem p2d_each_check_has_its_own_repair :
@@ -68,7 +71,40 @@ Theorem p2d_any_single_loss_is_recovered :
             fst (is_complete s) = true /\ forall c, d + l <= c < d * l + d + l -> known s c = true.
 Proof. exact p2d_any_single_loss_recovered. Qed.
 
+Theorem p2d_finish_recovers_exactly_the_determined_patterns :
+  forall (Sy : Type) (sxor : Sy -> Sy -> Sy) (s0 : Sy),
+  (forall a b c, sxor a (sxor b c) = sxor (sxor a b) c) -> (forall a b, sxor a b = sxor b a) ->
+  (forall a, sxor s0 a = a) -> (forall a, sxor a a = s0) ->
+  forall d l, 1 <= d -> 1 <= l -> (exists a : Sy, a <> s0) -> forall cw : nat -> Sy,
+  (forall i, i < d + l -> fold_right sxor s0 (map cw (nth i (rows2d d l) [])) = s0) ->
+  forall (hist : list (nat * Sy)) (s : st Sy) (fuel : nat) (perm : list nat) (o : outcome Sy),
+  (forall ev, In ev hist -> fst ev < d * l + d + l /\ snd ev = cw (fst ev)) ->
+  run Sy sxor s0 (rows2d d l) (d + l) (d * l + d + l) (S (d * l + d + l)) hist = Some s ->
+  d * l + d + l < fuel -> (forall c, c < d + l -> In c perm) -> (forall c, In c perm -> c < d + l) ->
+  ml_finish sxor s0 fuel perm s = Some o ->
+  (forall c v, nth c (tab (o_st o)) None = Some v -> v = cw c) /\
+  (forall c x, nth c (tab s) None = Some x -> nth c (tab (o_st o)) None = Some x) /\
+  (o_ok o = true <-> (forall c, d + l <= c < d * l + d + l -> known (o_st o) c = true)) /\
+  ((forall c, d + l <= c < d * l + d + l -> known (o_st o) c = true) <->
+   (forall z : nat -> bool, (forall i, i < d + l -> fold_right xorb false (map z (nth i (rows2d d l) [])) = false) ->
+      (forall c, In c (map fst hist) -> z c = false) -> forall c, d + l <= c < d * l + d + l -> z c = false)).
+Proof. exact p2d_session_finish. Qed.
+
+Theorem p2d_finish_always_returns :
+  forall (Sy : Type) (sxor : Sy -> Sy -> Sy) (s0 : Sy),
+  (forall a b c, sxor a (sxor b c) = sxor (sxor a b) c) -> (forall a b, sxor a b = sxor b a) ->
+  (forall a, sxor s0 a = a) -> (forall a, sxor a a = s0) ->
+  forall d l, 1 <= d -> 1 <= l -> (exists a : Sy, a <> s0) -> forall cw : nat -> Sy,
+  (forall i, i < d + l -> fold_right sxor s0 (map cw (nth i (rows2d d l) [])) = s0) ->
+  forall (hist : list (nat * Sy)) (fuel : nat) (perm : list nat),
+  (forall ev, In ev hist -> fst ev < d * l + d + l /\ snd ev = cw (fst ev)) ->
+  d * l + d + l < fuel -> (forall c, c < d + l -> In c perm) -> (forall c, In c perm -> c < d + l) ->
+  exists (s : st Sy) (o : outcome Sy),
+    run Sy sxor s0 (rows2d d l) (d + l) (d * l + d + l) (S (d * l + d + l)) hist = Some s /\ ml_finish sxor s0 fuel perm s = Some o.
+Proof. exact p2d_session_total. Qed.
+
 Print Assumptions p2d_each_check_has_its_own_repair.
+Print Assumptions p2d_finish_recovers_exactly_the_determined_patterns.
 Print Assumptions p2d_each_source_in_one_row_check_and_one_column_check.
 Print Assumptions p2d_accepts_only_product_shapes.
 Print Assumptions p2d_encoder_satisfies_every_check.
